@@ -216,6 +216,13 @@ def check_history(ctx, case):
         more = _build(kind, ops + [["add_bar", "C", [0, 0]], ["rest", [4, 0, 1, 1]], ["add", "str", [["C", 4]], [4, 0, 1, 1]]])
         if len(more.bars) != len(track.bars) or len(more.bars[-1]) != len(track.bars[-1]):
             ctx.check((track == more) is False, "equality/longer-track", repr(ops[-3:]))
+            # both operators, both ways round: a track whose bars are a prefix of the other's is a different track
+            ctx.check((track != more) is True and (more != track) is True and (more == track) is False, "equality/longer-track",
+                      lambda: "a track and the same track continued: != gives %r / %r" % (track != more, more != track))
+    fresh = Track(_instr(kind))
+    if model.accepted:
+        ctx.check((track != fresh) is True and (fresh != track) is True and (track == fresh) is False, "equality/empty-track",
+                  lambda: "a track with entries against an empty one: != gives %r / %r" % (track != fresh, fresh != track))
     ctx.note_case(bool(flags) and len(ops) >= 2, ["history:" + f for f in sorted(flags)] + ["instr:" + kind])
 
 
@@ -547,6 +554,19 @@ def sub_random(ctx, shard, n):
     ctx.given("history", check_history, _history_st(), 400 if ctx.quick else 6000)
 
 
+def sub_empty_containers(ctx, shard, n):
+    """a rest written as an empty container, through add_notes and through '+', with and without an instrument, alone and between notes"""
+    c4 = [["C", 4]]
+    cases = []
+    for kind in RANGES:
+        for how in ("plus", "add"):
+            rest = ["plus", "emptync", []] if how == "plus" else ["add", "emptync", [], [4, 0, 1, 1]]
+            for ops in ([rest], [rest, ["plus", "str", c4]], [["add", "str", c4, [2, 0, 1, 1]], rest, rest, ["add", "note", c4, [4, 0, 1, 1]], rest],
+                        [rest] * 5 + [["plus", "str", c4]]):
+                cases.append({"instr": kind, "ops": ops})
+    ctx.enumerate("history", check_history, cases)
+
+
 def sub_range_forms(ctx, shard, n):
     cases = [[k, pos, how] for k in ("generic", "piano", "guitar", "midi") for pos in (0, 1, 2) for how in ("list", "setitem", "edited", "nc", "low")]
     ctx.exhaustive("out-of-range note at every position of every content form", "4 instruments x 3 positions x 5 forms", len(cases))
@@ -633,6 +653,7 @@ SUBS = [
     Sub("random", sub_random, quick=4, thorough=16),
     Sub("fills", sub_fills, quick=4, thorough=16),
     Sub("range_forms", sub_range_forms),
+    Sub("empty_containers", sub_empty_containers),
     Sub("from_chords", sub_from_chords, quick=1, thorough=4),
     Sub("composition", sub_composition, quick=1, thorough=4),
 ]
